@@ -104,6 +104,18 @@ claim("C13", "E3", "exhaustive scope x source-layout enumeration + hypothesis fo
       "Stub transport and stub local backend substituted through the class attributes as in StatesPoolTest; the real "
       "TransferOps/ssh layer is not exercised.")
 
+claim("C10", "E1", "exhaustive should_rerun decision table + hypothesis generated outcome/retry/replay histories vs reference rule",
+      "A 630k-row table of TestNode.should_rerun on real parsed nodes (max_tries x recorded status sequences x rerun/stop "
+      "subsets x leaf/setup x plain/replay) against a reference written from the docstring, plus generated E1 runs: "
+      "retries are judged on the recorded history (each execution after the first must be allowed by the statuses "
+      "recorded before it, and no due try may be missing), identifiers of repeated executions are distinct and every "
+      "recorded result is the one emitted for that execution (marker), invalid settings raise ValueError, replayed "
+      "previous-job files (real results.json loader) follow the replay rule, and the verdict equals an independent "
+      "computation. Table exhaustive within its bounds; histories sampled.",
+      _E1NOTE + " Default pool_scope and max_concurrent_tries=1; results that are never reported only with a single "
+      "worker (with several workers the hung-test recovery admits another worker, which is not a retry); object "
+      "creation is excluded from the per-execution pairing because failed configuration steps count as tries.")
+
 _pending = "check not built yet in this round (planned in DESIGN.md section 4); not claimed until it runs"
 for _i in range(1, 21):
     _p = f"C{_i:02d}"
